@@ -107,6 +107,27 @@ def classify(s, public):
                 return ("public-%s-no-TypeNameError" % which, str(raised))
             if want is not None and raised == "TypeNameError":
                 return ("public-%s-TypeNameError-on-valid" % which, "")
+        # the type name of an AuxData table, met when the IR is saved
+        if len(s) <= 5 or len(s) > 12:
+            import gtirb as g_
+
+            for cont in ("ir", "module"):
+                ir_ = g_.IR()
+                m_ = g_.Module(name="m", ir=ir_)
+                (ir_ if cont == "ir" else m_).aux_data["t"] = g_.AuxData(0, s)
+                try:
+                    ir_.save_protobuf_file(io.BytesIO())
+                    raised = None
+                except ser.TypeNameError:
+                    raised = "TypeNameError"
+                except Exception as e:  # noqa
+                    raised = type(e).__name__
+                if want is None and raised != "TypeNameError":
+                    return ("save-of-%s-table-no-TypeNameError" % cont,
+                            str(raised))
+                if want is not None and raised == "TypeNameError":
+                    return ("save-of-%s-table-TypeNameError-on-valid" % cont,
+                            "")
         # the same with a codec registered (documented extension point) under
         # the whole string as its key: acceptance and the tree must still
         # come from the grammar, not from the codec table
